@@ -908,8 +908,9 @@ def run_ult(chunk, ctx):
                     for rl in root_lens:
                         sn = ultra_snap(d, ranks, hm, rl)
                         ult_cases(sn, n, tag, hm, exact, ctx, full=(rl is None and (tag == "base" or n <= 4)))
-        ctx.sample({"layer": "ult", "shape": ref.to_newick(ref.mk(shape), False), "drawings": len(drawings),
-                    "weak_rankings": nranked, "example": nwk(ultra_snap(shape, next(rankings(shape)), "mix"))}, 2)
+        if chunk["lo"] == 0 and n >= 3:
+            ctx.sample({"layer": "ult", "shape": ref.to_newick(ref.mk(shape), False), "drawings": len(drawings),
+                      "weak_rankings": nranked, "example": nwk(ultra_snap(shape, next(rankings(shape)), "mix"))}, 2)
 
 
 PREC_LITE = [DEFAULT, P10, 0, None]
@@ -1004,8 +1005,9 @@ def run_pert(chunk, ctx):
                                         ctx.case(("gamma", sn, repr(prec), "module"), nt)
                                         ctx.count("gamma_calls")
                                         check_gamma(dict(base, kind="gamma", prec=prec, via="module"), ctx)
-        ctx.sample({"layer": "pert", "shape": ref.to_newick(ref.mk(shape), False), "drawings": len(drawings),
-                    "deltas": len(DELTAS) * 2, "precisions": [repr(p) for p in PREC_PERT]}, 1)
+        if chunk["lo"] == 0 and n >= 3:
+            ctx.sample({"layer": "pert", "shape": ref.to_newick(ref.mk(shape), False), "drawings": len(drawings),
+                      "deltas": len(DELTAS) * 2, "precisions": [repr(p) for p in PREC_PERT]}, 1)
 
 
 GEN_PREC = [0, 0.5, 1, 1.5, 2, None]
@@ -1051,8 +1053,9 @@ def run_gen(chunk, ctx):
                 ctx.case(("treeness", sn), nt)
                 ctx.count("treeness_trees")
                 check_treeness(dict(base, kind="treeness"), ctx)
-        ctx.sample({"layer": "gen", "shape": ref.to_newick(ref.mk(shape), False), "drawings": len(drawings),
-                    "assignments_per_drawing": len(assignments), "alphabets": alphabets}, 1)
+        if chunk["lo"] == 0 and n >= 3:
+            ctx.sample({"layer": "gen", "shape": ref.to_newick(ref.mk(shape), False), "drawings": len(drawings),
+                      "assignments_per_drawing": len(assignments), "alphabets": alphabets}, 1)
 
 
 def run_part(chunk, ctx):
@@ -1097,7 +1100,7 @@ def run_stat(chunk, ctx):
                         ctx.case(("gamma", usn, repr(DEFAULT), "module"), True)
                         ctx.count("gamma_calls")
                         check_gamma(dict(base, kind="gamma", prec=DEFAULT, via="module"), ctx)
-        if si % 97 == 0:
+        if si == 0 and n >= 3:
             ctx.sample({"layer": "stat", "shape": ref.to_newick(bsn, False), "drawings": len(drawings),
                         "reference": dict(("%s(%s)" % k, v) for k, v in ref_topo_stats(bsn).items())}, 1)
 
